@@ -369,24 +369,7 @@ func runC13(p *core.Prog, r *core.Report, tier string) {
 				})
 				r.Check(w == nil, "C13.d", construct+"|state-filter", p.Pos(mu.Pos()), "an account is reported only when the state filter accepts its validator", "an account can be reported without the state filter having accepted its validator", p.WitnessText(w)...)
 				if strings.Contains(f.Name(), "ByIndex") {
-					w := core.Unguarded(ds, f, nil, func(x ssa.Instruction) bool { return x == in }, func(c core.Cond) int {
-						if c.B == nil {
-							return -1
-						}
-						ex, ok := c.B.Val.(*ssa.Extract)
-						if !ok || ex.Index != 1 {
-							return -1
-						}
-						lk, ok := ex.Tuple.(*ssa.Lookup)
-						if !ok || ds.D(lk.Index).String() != ds.D(mu.Key).String() {
-							return -1
-						}
-						if c.BoolOnEdge(0) {
-							return 0
-						}
-						return 1
-					})
-					r.Check(w == nil, "C13.f", construct+"|requested-only", p.Pos(mu.Pos()), "only requested indices are reported", "the by-index variant can report a validator that was not requested", p.WitnessText(w)...)
+					checkRequestedOnly(p, r, ds, "C13.f", construct, f, mu)
 				}
 			})
 		}
@@ -543,4 +526,35 @@ func runC13(p *core.Prog, r *core.Report, tier string) {
 			r.Check(okK && okV && sameKey, "C13.d", "validatorsmanager|ValidatorsByPubKey|entry", p.Pos(mu.Pos()), "result[index of pubkey] = validator of the same pubkey", "the result pairs index "+kd.String()+" with validator "+vd.String())
 		})
 	}
+}
+
+// checkRequestedOnly: the insert mu into the result of a by-index lookup is reached only on the edge on which its
+// key was found in the set of requested indices (`_, present := set[key]` or, for a bool-valued set, `set[key]`).
+func checkRequestedOnly(p *core.Prog, r *core.Report, ds *core.Describer, rule, construct string, f *ssa.Function, mu *ssa.MapUpdate) {
+	keyS := ds.D(mu.Key).String()
+	w := core.Unguarded(ds, f, nil, func(x ssa.Instruction) bool { return x == ssa.Instruction(mu) }, func(c core.Cond) int {
+		if c.B == nil || c.B.Val == nil {
+			return -1
+		}
+		var lk *ssa.Lookup
+		switch x := c.B.Val.(type) {
+		case *ssa.Extract:
+			if x.Index != 1 {
+				return -1
+			}
+			lk, _ = x.Tuple.(*ssa.Lookup)
+		case *ssa.Lookup:
+			if b, ok := x.Type().Underlying().(*types.Basic); ok && b.Kind() == types.Bool && !x.CommaOk {
+				lk = x
+			}
+		}
+		if lk == nil || ds.D(lk.Index).String() != keyS {
+			return -1
+		}
+		if c.BoolOnEdge(0) {
+			return 0
+		}
+		return 1
+	})
+	r.Check(w == nil, rule, construct+"|requested-only", p.Pos(mu.Pos()), "only requested indices are reported", "the by-index variant can report a validator that was not requested (for instance every account when the list of requested indices is empty)", p.WitnessText(w)...)
 }
